@@ -247,7 +247,7 @@ verus! {
 '''
 
 
-def extract_wrappers(repo, root):
+def extract_wrappers(repo, root, which='default'):
     """R16: second verification unit - resolvers/default.rs (and ring.rs) verbatim, against stub modules that carry the
     ASSUMED contracts of the third-party crates."""
     ex = Extracted()
@@ -278,7 +278,7 @@ def extract_wrappers(repo, root):
         d = rd('resolvers/%s.rs' % name)
         d = _sub(ex, 'R2-innerdoc', r'(?m)^//!.*\n', '', d)
         d = _sub(ex, 'R2-tests', r'(?ms)^#\[cfg\(test\)\].*', '', d)
-        for crate in ['curve25519_dalek', 'blake2', 'sha2', 'chacha20poly1305', 'aes_gcm', 'rand_core', 'ring']:
+        for crate in ['curve25519_dalek', 'blake2', 'sha2', 'chacha20poly1305', 'aes_gcm', 'rand_core']:
             d = _sub(ex, 'R16-use', r'(?m)^use %s::' % crate, 'use crate::deps::%s::' % crate, d)
         d = _sub(ex, 'R16-use', r'(?m)^use p256::', 'use crate::deps_p256::p256::', d)
         d = _sub(ex, 'R16-use', r'(?<![\w:])aes_gcm::Aes256Gcm::new\(', 'crate::deps::aes_gcm::Aes256Gcm::new(', d)
@@ -288,14 +288,33 @@ def extract_wrappers(repo, root):
         d = _sub(ex, 'R8', r'(?m)^struct ', 'pub struct ', d)
         d = _sub(ex, 'R4', r'assert!\(([^;]+?), "[^"]*"\);', r'crate::vassert(\1);', d)
         return d
-    d = wrapper_file('default')
-    d = _sub(ex, 'R5w', r'impl Random for OsRng \{\}',
-             'impl Random for OsRng { #[verifier::external_body] fn fill_bytes(&mut self, dest: &mut [u8]) { unimplemented!() } }', d, expect=1)
-    d = _pub_fields(ex, d)
-    body = r + '\npub mod default {\n//@@SRC resolvers/default.rs\nuse vstd::prelude::*;\nverus! {\n%s\n} // verus!\n}\n' % d
+    if which == 'ring':
+        # R16r: the ring resolver.  Struct fields stay private (the wrappers carry type invariants over the ring key / context)
+        r = _sub(ex, 'R2-resolvers', r'#\[cfg\(feature = "default-resolver"\)\]\npub use self::default::DefaultResolver;\n', '', r, expect=1)
+        d = wrapper_file('ring')
+        d = _sub(ex, 'R16-use', r'(?m)^use ring::', 'use crate::deps_ring::ring::', d, expect=1)
+        d = _sub(ex, 'R5w', r'impl Random for RingRng \{\}',
+                 'impl Random for RingRng { #[verifier::external_body] fn fill_bytes(&mut self, dest: &mut [u8]) { unimplemented!() } }', d, expect=1)
+        # the rand_core glue (RngCore / CryptoRng for RingRng) is not verified
+        d = _sub(ex, 'R12r', r'(?ms)^impl rand_core::RngCore for RingRng \{.*?^\}\n', '', d, expect=1)
+        d = _sub(ex, 'R12r', r'(?m)^impl rand_core::CryptoRng for RingRng \{\}', '', d, expect=1)
+        body = r + '\npub mod ring {\n//@@SRC resolvers/ring.rs\nuse vstd::prelude::*;\nverus! {\n%s\n} // verus!\n}\n' % d
+    else:
+        d = wrapper_file('default')
+        d = _sub(ex, 'R5w', r'impl Random for OsRng \{\}',
+                 'impl Random for OsRng { #[verifier::external_body] fn fill_bytes(&mut self, dest: &mut [u8]) { unimplemented!() } }', d, expect=1)
+        d = _pub_fields(ex, d)
+        body = r + '\npub mod default {\n//@@SRC resolvers/default.rs\nuse vstd::prelude::*;\nverus! {\n%s\n} // verus!\n}\n' % d
     out.append('pub mod resolvers {\n//@@SRC resolvers/mod.rs\nuse vstd::prelude::*;\nverus! {\n%s\n} // verus!\n}\n' % body)
     out.append('fn main() {}\n')
     ex.text = '\n'.join(out)
+    if which == 'ring':
+        ex.text = '\n'.join(out)
+        ex.dropped = ['ring unit: only constants, error, types, params choices, resolvers/mod.rs, resolvers/ring.rs are in this unit',
+                      'the ring crate is replaced by stub modules with ASSUMED contracts (spec/deps/ring.rs)',
+                      'R12r: the rand_core glue of RingRng (impl RngCore / CryptoRng) is dropped: NOT verified; RingRng is only seen through trait Random (R5w)',
+                      'struct fields stay private; the wrappers carry Verus type invariants (key/context algorithm)']
+        return ex
     ex.dropped = ['wrapper unit: only constants, error, types, params choices, resolvers/mod.rs, resolvers/default.rs are in this unit',
                   'third-party crates replaced by stub modules with ASSUMED contracts (spec/deps/*.rs)',
                   'P-256, XChaChaPoly, Kyber wrappers are compiled out (cfg) in the default configuration']
